@@ -318,6 +318,40 @@ func c12(c *Ctx) {
 			checkDecode(buf, "reused-buffer:overwritten")
 		}
 	}
+	// fields that are all zero, of every length (an empty record)
+	for n := 0; n <= 64; n++ {
+		checkDecode(make([]byte, n), "all-zero")
+	}
+	// results the caller has kept (the slice, not the pointer it came in) survive garbage collections and later encodes of the same length
+	{
+		type kept struct {
+			b    []byte
+			want string
+		}
+		ks := []kept{}
+		for i := 0; i < 600; i++ {
+			n := 1 + r.Pick(16)
+			d := make([]byte, n)
+			for k := range d {
+				d[k] = byte('0' + r.Pick(10))
+			}
+			if p, err := bcd.Encode(string(d)); err == nil && p != nil {
+				ks = append(ks, kept{*p, string(*p)})
+			}
+			if i%100 == 99 {
+				runtime.GC()
+				runtime.GC()
+			}
+		}
+		c.Res.Eval(1)
+		for _, k := range ks {
+			if string(k.b) != k.want {
+				c.Res.Violate("C12:encode:result-changes-later", fmt.Sprintf("a result of bcd.Encode that the caller kept (%x) reads %x after garbage collections and later encodes", []byte(k.want), k.b), nil, caseNo)
+				break
+			}
+		}
+		c.Res.Count("encode-results-kept-across-garbage-collections", int64(len(ks)))
+	}
 	// zero bytes decode to zero digits - whether the empty slice is nil or not
 	checkDecode(nil, "nil")
 	checkDecode([]byte(nil)[0:0], "nil")
